@@ -367,6 +367,7 @@ func runCase(rt *rapid.T, c *drv.Case) {
 	mods := map[string]bool{}
 	long := false
 	reorderedAt := 0
+	skimmed := false
 	var kinds []string
 	var okKinds []string
 	for i := 0; i < nb; i++ {
@@ -391,6 +392,20 @@ func runCase(rt *rapid.T, c *drv.Case) {
 					break
 				}
 				last = g.Id
+			}
+		}
+		if cfg.Alloyed {
+			if acc, _ := leader.App.PoolManagerKeeper.GetAllTakerFeeShareAccumulators(leader.ReadCtx()); len(acc) > 0 {
+				if !skimmed {
+					c.Class("taker-fee-share-skimmed")
+				}
+				skimmed = true
+				if len(acc) >= 2 {
+					c.Class("taker-fee-share-skimmed-for-2-denoms-in-one-epoch")
+				}
+			} else if skimmed {
+				c.Class("taker-fee-share-paid-out-at-epoch-end")
+				skimmed = false
 			}
 		}
 		for j, tx := range br.Tx {
